@@ -164,6 +164,7 @@ package builder
 //@   assigns all(option.PatternMatcher.re), all(option.PatternMatcher.exactCase)
 //@   ensures {C06,C05} option.shouldSkip(old(b.opts), path(lhs)) ==> a == box(gmodel.SkipField{LHS: bmodel.assignExpr(lhs)}) && err == nil
 //@   ensures {C05,C06} err == nil && option.skipInv(b.opts) && okResult(a, bmodel.assignExpr(lhs))
+//@   ensures {C14} kept(option.pmInv, *option.PatternMatcher)
 //@   atcall createWithConverter: {C06} !option.shouldSkip(b.opts, path(lhs)) && converter.m.dst.pattern == path(lhs) && noConv(b.opts, path(lhs), $k)
 //@   atcall createWithMapper: {C06} !option.shouldSkip(b.opts, path(lhs)) && noConv(b.opts, path(lhs), len(b.opts.Converters)) && mapper.dst.pattern == path(lhs) && noMap(b.opts, path(lhs), $k)
 //@   atcall createWithTemplatedMapper: {C06} !option.shouldSkip(b.opts, path(lhs)) && noConv(b.opts, path(lhs), len(b.opts.Converters)) && noMap(b.opts, path(lhs), len(b.opts.NameMapper)) && mapper.dst.pattern == path(lhs) && noTMap(b.opts, path(lhs), $k)
@@ -195,11 +196,14 @@ package builder
 //@   effects log
 //@   assigns all(option.PatternMatcher.re), all(option.PatternMatcher.exactCase)
 //@   ensures {C04,C05} err == nil && okResult(a, bmodel.assignExpr(lhs)) && option.skipInv(b.opts)
+//@   ensures {C14} kept(option.pmInv, *option.PatternMatcher)
 //@   ensures {C04} b.opts.Rule == gmodel.MatchRuleNone ==> isNoMatch(a, bmodel.assignExpr(lhs))
 //@   ensures {C04} !b.opts.Getter && b.opts.Rule != gmodel.MatchRuleName ==> isNoMatch(a, bmodel.assignExpr(lhs))
 //@   atcall IterateStructMethods: {C04} opts.Getter && opts.Rule != gmodel.MatchRuleNone
 //@   atcall IterateStructFields: {C04} opts.Rule == gmodel.MatchRuleName && *a == nil && *err == nil
+//@   iter IterateStructMethods invariant kept(option.pmInv, *option.PatternMatcher)
 //@   iter IterateStructMethods invariant *err == nil && okResult(*a, *lhsExpr) && (*a != nil ==> $done) && option.skipInv(b.opts) && *lhsExpr == bmodel.assignExpr(lhs)
+//@   iter IterateStructFields invariant kept(option.pmInv, *option.PatternMatcher)
 //@   iter IterateStructFields invariant *err == nil && okResult(*a, *lhsExpr) && (*a != nil ==> $done) && option.skipInv(b.opts) && *lhsExpr == bmodel.assignExpr(lhs)
 //@
 //@ spec fieldNode(lhs bmodel.Node, i int) bmodel.Node = box(bmodel.StructFieldNode{parent: lhs, field: fieldAt(structOf(bmodel.exprType(lhs)), i)})
@@ -213,8 +217,10 @@ package builder
 //@   effects log
 //@   assigns all(option.PatternMatcher.re), all(option.PatternMatcher.exactCase)
 //@   ensures {C05} err == nil && option.skipInv(b.opts) && (r == nil || fresh(r))
+//@   ensures {C14} kept(option.pmInv, *option.PatternMatcher)
 //@   ensures {C05} len(r) <= accBefore(b, lhsStruct, nFieldsOf(bmodel.exprType(lhsStruct)))
 //@   ensures {C05,C02} forall(j, 0, len(r), gmodel.under(r[j], bmodel.assignExpr(lhsStruct) + "."))
+//@   iter IterateStructFields invariant kept(option.pmInv, *option.PatternMatcher)
 //@   iter IterateStructFields invariant *err == nil && option.skipInv(b.opts) && (*assignments == nil || fresh(*assignments)) && sameOld(*assignments)
 //@   iter IterateStructFields invariant !$done && len(*assignments) <= accBefore(b, lhsStruct, $k)
 //@   iter IterateStructFields invariant forall(j, 0, len(*assignments), gmodel.under((*assignments)[j], bmodel.assignExpr(lhsStruct) + "."))
@@ -222,3 +228,111 @@ package builder
 //@ func (*assignmentBuilder).structToStruct$1(lhsField) (done)
 //@   inline
 //@   atcall matchStructFieldAndStruct: {C05,C01} accessible(b, bmodel.exprType(lhsStruct), bmodel.objNameOf(lhsField))
+
+// ---- hooks (C10, C07) --------------------------------------------------------------------------------------------------------
+
+//@ spec wfFB(p *FunctionBuilder) bool = p.fset != nil && p.pkg != nil && p.pkg.Types != nil
+//@ spec wfManip(m *option.Manipulator) bool =
+//@     m.Func != nil && pkgOfObj(refOf(m.Func)) != nil && m.DstSide != nil && m.SrcSide != nil && forall(i, 0, len(m.AdditionalArgs), m.AdditionalArgs[i] != nil)
+//@
+//@ func (*FunctionBuilder).buildManipulator(p, m, src, dst, additionalArgs, retError) (r, err)
+//@   nilable m
+//@   requires wfFB(p) && (m != nil ==> wfManip(m)) && forall(i, 0, len(additionalArgs), additionalArgs[i] != nil)
+//@   effects log
+//@   ensures {C10} m == nil ==> r == nil && err == nil
+//@   ensures {C10,C14} err != nil ==> r == nil
+//@   ensures {C10} m != nil && err == nil ==> r != nil && fresh(r) && r.Name == objName(m.Func) && r.RetError == m.RetError
+//@   ensures {C10} m != nil && err == nil ==> r.IsDstPtr == isPtrT(m.DstSide) && r.IsSrcPtr == isPtrT(m.SrcSide) && r.HasAdditionalArgs == (len(m.AdditionalArgs) > 0)
+//@   ensures {C10,C13} m != nil && err == nil ==> r.Pkg == cond(has(p.imports, pkgPath(pkgOfObj(refOf(m.Func)))), p.imports[pkgPath(pkgOfObj(refOf(m.Func)))], "")
+//@   ensures {C10,C07} m != nil && err == nil ==> (m.RetError ==> retError)
+//@   ensures {C10,C01} m != nil && err == nil ==> assignable(derefT(typeOfObj(dst)), derefT(m.DstSide)) && assignable(derefT(typeOfObj(src)), derefT(m.SrcSide))
+//@   ensures {C10} m != nil && err == nil && len(m.AdditionalArgs) > 0 ==> len(m.AdditionalArgs) == len(additionalArgs)
+//@   ensures {C10,C01} m != nil && err == nil ==> forall(i, 0, len(m.AdditionalArgs), assignable(typeOfObj(additionalArgs[i]), m.AdditionalArgs[i]))
+//@   loop 1 invariant $k <= len(m.AdditionalArgs) && forall(i, 0, $k, assignable(typeOfObj(additionalArgs[i]), m.AdditionalArgs[i]))
+//@
+//@ func ordinalNumber(n) (r)
+
+// ---- functions from methods (C08, C02, C07, C10, C11) -----------------------------------------------------------------------------
+
+//@ spec mkVar(p *FunctionBuilder, v *types.Var, def string) gmodel.Var =
+//@     gmodel.Var{Name: cond(nameOf(v) == "", def, nameOf(v)), Type: typeExpr(p.imports, derefT(typeOfObj(v))), Pointer: isPtrT(typeOfObj(v)),
+//@                External: is(derefT(derefT(typeOfObj(v))), *types.Named) && pkgOfObj(namedObj(as(derefT(derefT(typeOfObj(v))), *types.Named))) != nil &&
+//@                          has(p.imports, pkgPath(pkgOfObj(namedObj(as(derefT(derefT(typeOfObj(v))), *types.Named)))))}
+//@
+//@ func (*FunctionBuilder).createVar(p, v, defName) (r)
+//@   ensures {C08} r == mkVar(p, v, defName)
+//@
+//@ func newAssignmentBuilder(p, m, lhsVar, rhsVar, additionalArgs) (r)
+//@   requires bmodel.wfMethod(m)
+//@   ensures {C02,C09} fresh(r) && r.file == p.file && r.fset == p.fset && r.pkg == p.pkg && r.imports == p.imports && r.opts == m.Opts
+//@   ensures {C02,C08} r.lhsVar == lhsVar && r.rhsVar == rhsVar && r.additionalArgVars == additionalArgs && r.methodPos == objPos(m.Method) && r.funcName == objName(m.Method)
+//@   ensures r.copiers == nil
+//@
+//@ func (*assignmentBuilder).dispatch(b, lhs, rhs, additionalArgs) (r, err)
+//@   requires readyB(b) && bmodel.wfNode(lhs) && bmodel.wfNode(rhs) && plainPath(rhs) && argsReady(additionalArgs)
+//@   reveal wfNode, exprType
+//@   effects log
+//@   assigns all(option.PatternMatcher.re), all(option.PatternMatcher.exactCase)
+//@   ensures {C05,C02} err == nil && option.skipInv(b.opts) && forall(j, 0, len(r), r[j] != nil)
+//@   ensures {C14} kept(option.pmInv, *option.PatternMatcher)
+//@
+//@ func (*assignmentBuilder).build(b, lhs, rhs, additionalArgs) (r, err)
+//@   requires readyB(b) && len(b.additionalArgVars) == len(additionalArgs) && forall(i, 0, len(additionalArgs), additionalArgs[i] != nil)
+//@   reveal wfNode, exprType, returnsError, parentOf
+//@   effects log
+//@   assigns all(option.PatternMatcher.re), all(option.PatternMatcher.exactCase), b.copiers, elems(b.copiers)
+//@   ensures {C05,C02} err == nil && option.skipInv(b.opts) && forall(j, 0, len(r), r[j] != nil)
+//@   ensures {C14} kept(option.pmInv, *option.PatternMatcher)
+//@   atcall dispatch: {C02} $arg1 == box(bmodel.RootNode{name: b.lhsVar.Name, typ: typeOfObj(lhs)}) && $arg2 == box(bmodel.RootNode{name: b.rhsVar.Name, typ: typeOfObj(rhs)})
+//@   atcall dispatch: {C02,C06} len($arg3) == len(additionalArgs) && forall(i, 0, len(additionalArgs), $arg3[i] == box(bmodel.RootNode{name: b.additionalArgVars[i].Name, typ: typeOfObj(additionalArgs[i])}))
+//@   loop 1 invariant $k <= len(additionalArgs) && len(rootAdditionalArgs) == len(additionalArgs) && fresh(rootAdditionalArgs)
+//@   loop 1 invariant forall(i, 0, $k, rootAdditionalArgs[i] == box(bmodel.RootNode{name: b.additionalArgVars[i].Name, typ: typeOfObj(additionalArgs[i])}))
+//@
+//@ spec optsReady(o option.Options) bool =
+//@     option.optsInv(o) && convsReady(o) && templReady(o) && (o.PreProcess != nil ==> wfManip(o.PreProcess)) && (o.PostProcess != nil ==> wfManip(o.PostProcess))
+//@ spec wfEntry(m *bmodel.MethodEntry) bool = bmodel.wfMethod(m) && bmodel.mNPar(m) > 0 && bmodel.mNRes(m) > 0 && optsReady(m.Opts)
+//@ spec opaque entryOK(m *bmodel.MethodEntry) bool = wfEntry(m)
+//@ spec argVar(p *FunctionBuilder, m *bmodel.MethodEntry, i int) gmodel.Var = mkVar(p, bmodel.mParam(m, i+1), "arg" + itoa(i))
+//@
+//@ func (*FunctionBuilder).CreateFunction(p, m) (fn, err)
+//@   requires wfFB(p)
+//@   requires bmodel.wfMethod(m) && bmodel.mNPar(m) > 0 && bmodel.mNRes(m) > 0
+//@   requires option.skipInv(m.Opts)
+//@   requires option.convInv(m.Opts) && convsReady(m.Opts)
+//@   requires option.mapInv(m.Opts.NameMapper)
+//@   requires option.mapInv(m.Opts.TemplatedNameMapper) && templReady(m.Opts)
+//@   requires option.litInv(m.Opts)
+//@   requires (m.Opts.PreProcess != nil ==> wfManip(m.Opts.PreProcess)) && (m.Opts.PostProcess != nil ==> wfManip(m.Opts.PostProcess))
+//@   use T3(refOf(m.Method))
+//@   effects log
+//@   assigns all(option.PatternMatcher.re), all(option.PatternMatcher.exactCase)
+//@   ensures {C08,C14} err != nil ==> fn == nil
+//@   ensures {C14} kept(option.pmInv, *option.PatternMatcher)
+//@   ensures {C08,C17} err == nil ==> fn != nil && fresh(fn) && fn.Name == objName(m.Method)
+//@   ensures {C08} err == nil ==> fn.Receiver == m.Opts.Receiver && fn.DstVarStyle == m.Opts.Style
+//@   ensures {C08,C07} err == nil ==> fn.RetError == bmodel.retErr(m)
+//@   ensures {C08} err == nil && m.Opts.Receiver == "" ==> fn.Src == mkVar(p, bmodel.mParam(m, 0), cond(m.Opts.Reverse, "dst", "src"))
+//@   ensures {C08} err == nil && m.Opts.Receiver != "" ==> fn.Src.Name == m.Opts.Receiver && fn.Src.Type == mkVar(p, bmodel.mParam(m, 0), "").Type && fn.Src.Pointer == mkVar(p, bmodel.mParam(m, 0), "").Pointer && !fn.Src.External
+//@   ensures {C08} err == nil ==> fn.Dst == mkVar(p, bmodel.mResult(m, 0), cond(m.Opts.Reverse, "src", "dst"))
+//@   ensures {C08} err == nil ==> len(fn.AdditionalArgs) == cond(bmodel.mNPar(m) <= 1, 0, bmodel.mNPar(m) - 1) && forall(i, 0, len(fn.AdditionalArgs), fn.AdditionalArgs[i] == argVar(p, m, i))
+//@   ensures {C08,C03} m.Opts.Reverse && bmodel.mNPar(m) > 1 ==> err != nil
+//@   ensures {C11} err == nil ==> len(fn.Comments) == cond(m.DocComment == nil, 0, len(m.DocComment.List)) && (m.DocComment != nil ==> forall(i, 0, len(fn.Comments), fn.Comments[i] == m.DocComment.List[i].Text))
+//@   ensures {C07,C10} err == nil && !bmodel.retErr(m) ==> (fn.PreProcess == nil || !fn.PreProcess.RetError) && (fn.PostProcess == nil || !fn.PostProcess.RetError)
+//@   ensures {C05,C02} err == nil ==> forall(j, 0, len(fn.Assignments), fn.Assignments[j] != nil)
+//@   atcall build: {C02} cond(m.Opts.Reverse, $arg1 == src && $arg2 == dst && $arg0.lhsVar == *srcVar && $arg0.rhsVar == dstVar, $arg1 == dst && $arg2 == src && $arg0.lhsVar == dstVar && $arg0.rhsVar == *srcVar)
+//@   atcall buildManipulator: {C10} $arg2 == src && $arg3 == dst && $arg4 == additionalArgs && $arg5 == bmodel.retErr(m)
+//@   loop 1 invariant $k <= len(additionalArgs)
+//@   loop 2 invariant $k <= len(additionalArgs) && len(additionalArgsVars) == len(additionalArgs) && fresh(additionalArgsVars)
+//@   loop 2 invariant forall(i, 0, $k, additionalArgsVars[i] == argVar(p, m, i))
+//@
+//@ func (*FunctionBuilder).CreateFunctions(p, methods) (r, err)
+//@   requires wfFB(p) && forall(i, 0, len(methods), entryOK(methods[i]))
+//@   effects log
+//@   assigns all(option.PatternMatcher.re), all(option.PatternMatcher.exactCase)
+//@   ensures {C08,C17,C14} err == nil ==> len(r) == len(methods) && forall(i, 0, len(r), r[i] != nil && r[i].Name == objName(methods[i].Method))
+//@   ensures err != nil ==> r == nil
+//@   ensures {C14} kept(option.pmInv, *option.PatternMatcher)
+//@   loop 1 invariant $k <= len(methods) && len(functions) == len(methods) && fresh(functions)
+//@   loop 1 invariant forall(i, 0, $k, allocated(functions[i]) && functions[i] != nil && functions[i].Name == objName(methods[i].Method))
+//@   loop 1 invariant kept(option.pmInv, *option.PatternMatcher)
+//@   reveal entryOK
